@@ -597,6 +597,12 @@ func HTMLDoc(r *rand.Rand) Doc {
 		}
 		d.sb.WriteString("<style>" + strings.Join(rules, " ") + "</style><ol style=\"list-style-type: " + Pick(r, names) + "\" start=\"" + Pick(r, []string{"1", "0", "-2", "5"}) + "\"><li>a</li><li>b</li><li>c</li><li>d</li></ol><p style=\"counter-reset: q 7\">x<span style=\"content: counter(q, " + Pick(r, names) + ")\"></span><q style=\"quotes: none\"></q></p><p class=\"cs\">y</p><style>.cs::before { content: counter(q, " + Pick(r, names) + ") counters(q, \".\", " + Pick(r, names) + ") }</style>")
 	}
+	if r.Intn(10) == 0 {
+		d.sb.WriteString(degenerateFloats(r))
+	}
+	if r.Intn(10) == 0 {
+		d.sb.WriteString(quoteStress(r))
+	}
 	if r.Intn(10) != 0 {
 		d.sb.WriteString("</body></html>")
 	}
@@ -614,4 +620,84 @@ func HTMLDoc(r *rand.Rand) Doc {
 		"pic.svg":   `<svg xmlns="http://www.w3.org/2000/svg" width="8" height="8"><rect width="4" height="4" fill="green"/></svg>`,
 	}
 	return doc
+}
+
+// degenerateFloats writes a block of floats with degenerate geometry: zero or cancelled heights
+// (negative margins), zero / full / over-full widths, empty floats, clears, next to lines and
+// inline-blocks that do not fit beside them; sometimes on a page and body without margins, where
+// empty floats sit at the very top.
+func degenerateFloats(r *rand.Rand) string {
+	var sb strings.Builder
+	if r.Intn(3) == 0 {
+		sb.WriteString("<style>@page { margin: 0 } html, body { margin: 0; padding: 0 }</style>")
+	}
+	sb.WriteString(`<div style="width: ` + Pick(r, []string{"100px", "60px", "auto", "0", "100%"}) + `">`)
+	n := 2 + r.Intn(5)
+	for i := 0; i < n; i++ {
+		st := "float: " + Pick(r, []string{"left", "left", "right"}) + "; width: " + Pick(r, []string{"0", "50%", "100%", "120%", "30px", "60px", "auto", "1px"}) + "; "
+		switch r.Intn(7) {
+		case 0:
+			st += "height: 0; "
+		case 1:
+			h := Pick(r, []string{"10px", "20px", "5px"})
+			st += "height: " + h + "; margin-bottom: -" + h + "; "
+		case 2:
+			h := Pick(r, []string{"10px", "20px"})
+			st += "height: " + h + "; margin-top: -" + h + "; "
+		case 3:
+			st += "height: 10px; margin-bottom: " + Pick(r, []string{"-5px", "-15px", "-100px"}) + "; "
+		case 4:
+			st += "height: " + Pick(r, []string{"10px", "1px", "100px"}) + "; "
+		}
+		if r.Intn(4) == 0 {
+			st += "clear: " + Pick(r, []string{"left", "right", "both"}) + "; "
+		}
+		if r.Intn(5) == 0 {
+			st += "margin-left: " + Pick(r, []string{"-10px", "-100%", "10px"}) + "; "
+		}
+		sb.WriteString(`<div style="` + st + `">` + Pick(r, []string{"", "", "", "x", "word word", "<img src=\"mem://doc/pic.svg\">"}) + `</div>`)
+		if r.Intn(3) == 0 {
+			sb.WriteString(Pick(r, []string{"text ", "supercalifragilistic ", `<span style="display: inline-block; width: 80%">ib</span> `, `<p style="clear: both">p</p>`, `<br>`, `<div style="overflow: hidden; width: 90%">bfc</div>`}))
+		}
+	}
+	sb.WriteString(Pick(r, []string{"tail text after the floats", "", `<p>para</p>`, `<div style="float: left; width: 100%">last</div>`}) + "</div>")
+	return sb.String()
+}
+
+// quoteStress writes elements whose generated content mixes the four quote keywords in unbalanced
+// sequences, under quotes: none / auto / one pair / two pairs, with nested <q> elements.
+func quoteStress(r *rand.Rand) string {
+	kw := []string{"open-quote", "close-quote", "no-open-quote", "no-close-quote", "\"s\"", "counter(c)", "attr(title)"}
+	list := func() string {
+		n := 1 + r.Intn(4)
+		var p []string
+		for i := 0; i < n; i++ {
+			p = append(p, Pick(r, kw))
+		}
+		return strings.Join(p, " ")
+	}
+	var sb strings.Builder
+	sb.WriteString("<style>")
+	for _, c := range []string{"qa", "qb", "qc"} {
+		sb.WriteString("." + c + "::before { content: " + list() + " } ." + c + "::after { content: " + list() + " } ." + c + " { quotes: " + Pick(r, []string{"auto", "none", "none", "\"<\" \">\"", "\"a\" \"b\" \"c\" \"d\"", "inherit"}) + " } ")
+	}
+	if r.Intn(3) == 0 {
+		sb.WriteString("q { quotes: " + Pick(r, []string{"none", "\"[\" \"]\"", "auto"}) + " } q::before { content: " + list() + " } ")
+	}
+	sb.WriteString("</style>")
+	n := 2 + r.Intn(6)
+	for i := 0; i < n; i++ {
+		c := Pick(r, []string{"qa", "qb", "qc"})
+		switch r.Intn(4) {
+		case 0:
+			sb.WriteString(`<q class="` + c + `">in <q>nested <q lang="` + Pick(r, []string{"fr", "en", "de", "zz", ""}) + `">deep</q></q></q> `)
+		case 1:
+			sb.WriteString(`<span class="` + c + `" title="t">s</span> `)
+		case 2:
+			sb.WriteString(`<q>plain</q> `)
+		default:
+			sb.WriteString(`<p class="` + c + `">p <q class="` + Pick(r, []string{"qa", "qb", "qc"}) + `">q</q></p>`)
+		}
+	}
+	return sb.String()
 }
